@@ -21,8 +21,10 @@
      item_bytes x                 the length of one occurrence of x by the COBOL rules (no count vector enters: the
                                   occurrences of a flat table are fixed elementary items)
      occupied c                   the number of occupied elements of a table whose counter holds c: max(0, c)
+     has_neg ze ks                some table among ks depends on a counter that holds a negative value
      C06e_item_after_table_statement   the property's sentence "every item after the table is found immediately after
-                                  the last occupied element" for EVERY counter value (refuted for negative ones) *)
+                                  the last occupied element" for EVERY counter value - or the record is refused - about the
+                                  walk as the source has it now; ..._old: about the walk without the sign test (refuted) *)
 From Coq Require Import List Arith NArith ZArith Bool.
 Import ListNotations.
 Require Import SR.Base.Res SR.Spec.Layout SR.Spec.OdoStream SR.Model.Layout SR.Model.Counters.
@@ -145,15 +147,29 @@ Fixpoint consecutive (ks : items) (x y : item) : Prop :=
 Definition item_bytes (x : item) : Z := Z.of_nat (ext1 (fun _ => 0%nat) x).
 Definition occupied (c : Z) : Z := Z.max 0 c.
 
-(* Property C06, second clause, for every value the counter may hold: the item declared after a table starts where the
-   last occupied element ends, i.e. at  table start + (number of occupied elements) * (length of one element). *)
-Definition C06e_item_after_table_statement : Prop :=
+(* ---- a table whose counter holds a negative value *)
+Definition neg_count (ze : id -> Z) (x : item) : bool := match item_oc x with Odo c => ze c <? 0 | _ => false end.
+Fixpoint has_neg (ze : id -> Z) (ks : items) : bool :=
+  match ks with INil => false | ICons x xs => neg_count ze x || has_neg ze xs end.
+Fixpoint in_items (x : item) (ks : items) : Prop :=
+  match ks with INil => False | ICons a tl => a = x \/ in_items x tl end.
+
+(* Property C06, second clause, for every value the counter may hold: EITHER the record is refused (constructing the
+   navigator raises ValueError) OR the item declared after a table starts where the last occupied element ends, i.e. at
+   table start + (number of occupied elements) * (length of one element).  [negref]: is a negative item count refused by
+   the walk (Model/Counters.zwalk_with); the statement about the code as it is NOW takes the flag read from the source. *)
+Definition item_after_table_statement_with (negref : bool) : Prop :=
   forall (zdec : list N -> res Z) (ze : id -> Z) (t : item) (r : list N),
     flat_odo t = true -> zcounters_hold zdec ze t r ->
-    exists v, znav_of zdec r (build t) = Ok v
-      /\ forall x y c, consecutive (item_kids t) x y -> item_oc x = Odo c ->
-           exists vx vy, znav_name v (KName (item_id x)) = Ok vx /\ znav_name v (KName (item_id y)) = Ok vy
-             /\ zstart (zn_loc vy) = zstart (zn_loc vx) + occupied (ze c) * item_bytes x.
+    znav_of_with negref zdec r (build t) = Err ValueError
+    \/ exists v, znav_of_with negref zdec r (build t) = Ok v
+         /\ forall x y c, consecutive (item_kids t) x y -> item_oc x = Odo c ->
+              exists vx vy, znav_name v (KName (item_id x)) = Ok vx /\ znav_name v (KName (item_id y)) = Ok vy
+                /\ zstart (zn_loc vy) = zstart (zn_loc vx) + occupied (ze c) * item_bytes x.
+
+Definition C06e_item_after_table_statement : Prop := item_after_table_statement_with SR.Gen.LayoutParams.odo_negative_refused.
+(* ... and about the walk before the fix of finding K-negative-counter (no sign test on the count) *)
+Definition C06e_item_after_table_statement_old : Prop := item_after_table_statement_with false.
 
 (* ---- the witness: 01 R. 05 N PIC S9. 05 T PIC X(2) OCCURS 0 TO 5 DEPENDING ON N. 05 Z PIC X(3).
    (ids R=1 N=2 T=3 Z=4; this library gives PIC S9 DISPLAY two bytes) with N = F0 D2, i.e. -2 *)
